@@ -72,6 +72,16 @@ def generate(streams: core.Streams, tier: str) -> dict:
             d["references"] = gen.pick(w, [["http://a"], ["http://a", "http://a"], ["http://a", "http://b"]])
         d["_key"] = f"k{i}"  # harness identity, stored as custom attribute
         docs.append(d)
+    if len(docs) >= 2 and gen.chance(w, 0.3):
+        # two rules with the SAME condition text whose selector matches in one rule and in the other not
+        a, b = w.sample(range(len(docs)), 2)
+        cond = gen.pick(w, ["selection and not 1 of filter_*", "1 of sel* and not all of flt*", "selection or 1 of opt_*"])
+        pre = {"selection and not 1 of filter_*": "filter_", "1 of sel* and not all of flt*": "flt", "selection or 1 of opt_*": "opt_"}[cond]
+        for k, with_match in ((a, True), (b, False)):
+            det = {"selection": {"User": "x"}, "condition": cond}
+            if with_match:
+                det[pre + "one"] = {"Image": "y"}
+            docs[k]["detection"] = det
     if gen.chance(w, 0.2):
         ref = next((d["id"] for d in docs if "id" in d), None)
         if ref:
@@ -287,8 +297,11 @@ def _world(args: tuple[dict, int | None]) -> dict:
         root = os.path.join(scratch, "rules")
         file_order = _write_tree(sc, root, wd["rule_order"])
         rank = {p: j for j, p in enumerate(file_order)}
-        with world.GlobOrder(lambda found: sorted(found, key=lambda x: rank.get(str(x), 99))):
-            coll = SigmaCollection.load_ruleset([root])
+        try:
+            with world.GlobOrder(lambda found: sorted(found, key=lambda x: rank.get(str(x), 99))):
+                coll = SigmaCollection.load_ruleset([root])
+        except Exception as e:  # a collection that does not load is outside this property
+            return {"loadfail": world.exc_record(e)}
         out["loaded_order"] = [r.custom_attributes.get("sim_key") for r in coll.rules]
 
         def validate() -> None:
@@ -345,6 +358,9 @@ def execute(scenario: dict) -> dict:
         return bases[key]
 
     base = baseline(list(range(len(sc["documents"]))))
+    if "loadfail" in base:
+        return {"violation": None, "log": {"baseline": base}, "faults": {}, "probes": {"collection_not_loadable": 1},
+                "steps": 0, "signature": "unloadable", "nontrivial": False}
     faults: dict[str, int] = {}
     probes: dict[str, int] = {}
     violation = None
@@ -357,6 +373,10 @@ def execute(scenario: dict) -> dict:
         st, got = core.run_in_fork(_world, (sc, wi), 30.0)
         if st != "ok":
             raise core.HarnessError(f"world {wi} failed: {st}: {got}")
+        if "loadfail" in got:
+            violation = {"oracle": "collection-loads-in-every-order", "kind": "load-failed-in-one-order", "world": wd,
+                         "got": got["loadfail"], "want": "loadable as in the baseline order"}
+            break
         steps += len(wd["ops"])
         core.merge_counts(faults, {"interleaving:" + wd["ops"]: 1})
         if wd["validator_order"] != sorted(wd["validator_order"]):
